@@ -898,14 +898,14 @@ class Folder:
             return []
         if not a:
             return NotImplemented
-        if cc.startswith("alloc::vec::Vec::") and last in ("push", "extend_from_slice") and len(a) == 2:
+        if "alloc::vec::Vec" in cc and last in ("push", "extend_from_slice", "extend") and len(a) == 2:
             v = _loaded(self.fold(a[0]))
             if isinstance(v, list):
                 x = self.fold(a[1])
                 if last == "push":
                     v.append(x)
-                elif isinstance(x, list):
-                    v.extend(_loaded(y) for y in x)
+                elif self._iterable(x) is not None:
+                    v.extend(_loaded(y) for y in self._iterable(x))
                 else:
                     return NotImplemented
                 return None
